@@ -274,10 +274,29 @@ def o_path_vs_stream(ctx):
         R.single(path, optargs=['--quiet'], write_pka=True)
         c = open('micro.pka').read()
 
+        # a working directory that holds files named like the packaged data files, with other content
+        import propka
+        pkg = os.path.dirname(propka.__file__)
+        decoy = os.path.join(d, 'decoy')
+        os.mkdir(decoy)
+        os.chdir(decoy)
+        cfg = open(os.path.join(pkg, 'propka.cfg')).read()
+        import re
+        open('propka.cfg', 'w').write(re.sub(r'(model_pkas\s+(?:COO|ASP|GLU|HIS|TYR|LYS|ARG|C-|N\+)\s+)([0-9.]+)', lambda m: m.group(1) + '%.2f' % (float(m.group(2)) + 1.0), cfg))
+        open('protein_bonds.json', 'w').write('{}')
+        open('ions.list', 'w').write('')
+        R.single(path, optargs=['--quiet'], write_pka=True)
+        e = open('micro.pka').read()
+        os.remove('micro.pka')
+        R.single('micro.pdb', optargs=['--quiet'], stream=io.StringIO(M.text(name)), write_pka=True)
+        f = open('micro.pka').read()
+
         def strip(t):
             return '\n'.join(l for l in t.split('\n') if not l.startswith('propka'))
         ctx.claim('path-equals-stream', strip(a) == strip(b))
         ctx.claim('working-directory-irrelevant', strip(a) == strip(c))
+        ctx.claim('working-directory-content-irrelevant', strip(a) == strip(e) and strip(a) == strip(f),
+                  detail='a working directory holding its own propka.cfg / protein_bonds.json changes the result of a default-option run')
     finally:
         os.chdir(cwd)
         import shutil
@@ -435,8 +454,8 @@ def obligations(tier):
                           bounds='amide N at symbolic x after protonating an unknown element / a charged N / nothing', claim_doc='same hydrogen as a fresh Protonate object'))
     obs.append(Obligation('O3-path-stream-cwd', o_path_vs_stream, code=['propka/input.py:open_file_for_reading', 'propka/input.py:read_molecule_file', 'propka/run.py:single',
                                                                         'propka/molecular_container.py:MolecularContainer.write_pka'],
-                          bounds='3 micro-structures: path vs StringIO vs another working directory (concrete runs)', kind='table-check',
-                          claim_doc='.pka text identical apart from the date line', native=None))
+                          bounds='3 micro-structures: path vs StringIO vs another working directory vs a working directory holding decoy data files (concrete runs)', kind='table-check',
+                          claim_doc='.pka text identical apart from the date line; a working directory with its own propka.cfg / protein_bonds.json / ions.list changes nothing'))
     return obs
 
 
